@@ -145,6 +145,8 @@ impl Scheduler for SeededScheduler {
             return None;
         }
         self.started = true;
+        // the knobs still hold the previous run's values until the run's setup resets them
+        self.last_sleep_count = tantivy::verif_sim::with_knobs(|k| k.sleep_count);
         STEP.with(|s| s.set(0));
         QUIESCING.with(|q| q.set(false));
         QUIESCED.with(|q| q.set(false));
@@ -187,7 +189,11 @@ impl Scheduler for SeededScheduler {
         // else made progress", otherwise lock retry loops time out under priority schedulers.
         const SLEEP_QUANTUM: u32 = 8;
         let sc = tantivy::verif_sim::with_knobs(|k| k.sleep_count);
-        if sc != self.last_sleep_count {
+        if sc < self.last_sleep_count {
+            // the per-run knobs were reset (start of a run): not a sleep
+            self.last_sleep_count = sc;
+        }
+        if sc > self.last_sleep_count {
             self.last_sleep_count = sc;
             // time passes while somebody sleeps: a thread held back by `stall`/`starve` gets the CPU
             // long before a 100 ms sleep is over (otherwise lock retry loops would time out on a
